@@ -72,6 +72,63 @@ CLAIMED = {
             "mutating op every vertex is queried under several keys with caching on; oracle: answer with caching on = answer recomputed with the flag off (also for traversals/searches); "
             "graphs with warm caches are pickled and re-queried in a fresh interpreter.",
             "Process boundaries are exercised, not modelled. Filters are assumed pure.", "DESIGN.md 3/C05"),
+    "C10": ("Lean 4 proof (partial: scheduling only): the queue machine of the non-recursive pickler refines the recursive pickler for every heap and depth; three-layer correspondence (event trace vs machine, opcode stream vs dill, load-and-compare incl. fresh interpreter)",
+            "Theorems C10_nr_refines_rec / C10_dump_eq (for every abstract object heap, every depth and any pending queue, the deferred-save queue machine emits the recursive pickler's "
+            "opcode stream up to build-pop-GET = discard-GET, with the same memo), C10_step_flat (one iteration handles one item and expands at most one object by one level: no recursion), "
+            "C10_rec_needs_depth / C10_nr_handles_depth (a chain of n objects defeats any recursion budget <= n of the recursive pickler, never the queue machine). Tie: the real pickler is "
+            "sub-classed in the harness, the abstract heap is EXTRACTED from each real run and the real save/memoize/POP+GET event sequence is compared with the Lean machine; streams are compared "
+            "with dill.dumps; copies are loaded with pickle and dill (same process, fresh interpreter, caching on/off either side, protocols 0-5) and compared field by field incl. sharing; "
+            "chains far deeper than the recursion limit are serialised under a lowered limit.",
+            "PARTIAL: byte-level faithfulness, pickle/dill's loader (load o recursive-dump is an isomorphism) and the stack-equivalence behind `normalize` are trusted and only tested. "
+            "RecursionError is a runtime limit: exercised, not provable.", "DESIGN.md 3/C10"),
+    "C11": ("Lean 4 proof: effect of the builder loops (members = first-mention order, one link per entry in input order, frame, validation first) via loop invariants over the reference model; exhaustive small inputs + random correspondence",
+            "Theorems C11_dict_builds / C11_matrix_builds (structure `Built`: new universe, members = dedupKeepFirst of the mention sequence / side array, exactly one new link per listed pair or truthy cell, "
+            "oriented key->value / row->column, of the requested class, created in input order; every pre-existing link untouched, every pre-existing links/universes list a prefix of the new one), "
+            "C11_dict_links_of_vertex / C11_matrix_links_of_vertex (the exact ordered links a vertex gains, from which read-back follows by C04/C09), C11_matrix_bad_input (ValueError, no new world). "
+            "Correspondence: every dict over <=3 vertices with value lists <=2 (sampled in quick), every 0/1 matrix up to 3x3 with arbitrary truthy/falsy cell values, malformed inputs, prior links/universes; "
+            "the oracle reads the result back with neighbors()/find_links on the real code.",
+            "Read-back itself is checked on the real code by the oracle, and follows in the model from C11_*_links_of_vertex + C04/C09 but is not stated as one theorem.", "DESIGN.md 3/C11"),
+    "C12": ("Lean 4 proof: non-interference of caller-side edits of handed-out containers over all histories (alias-free model); correspondence that really mutates every exchanged container",
+            "Theorem C12_noninterference: in the model every accessor/query returns a value, so for every history interleaving public calls with arbitrary edits of any container handed out so far, "
+            "the world and all answers equal those of the history with the edits erased (C12_cached_answer_detached for the neighbors memo). The weight is in the correspondence: with keep-mode on, the adapter "
+            "records every container the real code returns (links, vertices, universes, edge_whitelist incl. inner mappings, neighbors, find_links, traversal results, unlink(destroy=False)) or is given "
+            "(vertices=, universes=, links=, attributes=, edge_whitelist= outer+inner, adjacency dict + value lists, matrix + rows + side array), `mut` ops apply real mutations, and every later observation "
+            "must still equal the alias-free model's; an oracle compares obs before/after each mut.",
+            "The theorem is thin by design (DESIGN.md 7): it states that the model compared with the code has no aliasing.", "DESIGN.md 3/C12"),
+    "C13": ("Lean 4 proof: frame property of neighbors()/find_links for every fault index (world unchanged but the memo, memo stays correct, repeat gives the normal answer); snapshot oracle + exhaustive per-call fault sweep on the real code",
+            "Theorems C13_neighbors_frame (for EVERY invocation index at which the filter raises: graph unchanged, no incorrect memo left, other memos untouched), C13_repeat_ok, C13_step_readonly, "
+            "C13_queries_invisible. Traversals, searches and renderers are functions from the world in the model because the code contains no store; for them the property is established on the real code: "
+            "vars() of every object (attribute-name sets, values, container contents) is snapshotted around every read-only call of every script, and a fault is swept over every invocation index of every "
+            "callback (filterfunc, ff_via, ff_result, rfunc, sort, rvfunc, refunc, user_render_func), each followed by an unfaulted repeat that must give the baseline answer.",
+            "PARTIAL for entry points without stores: frame by construction of the model + exhaustive fault sweep per call, not a theorem about the Python.", "DESIGN.md 3/C13"),
+    "C14": ("Lean 4 proof: structure of the PlantUML source (one declaration per member, relation lines = shown links one-for-one, orientation, nearest configured class); parse-back correspondence",
+            "Theorems C14_decl_once, C14_shown_links, C14_relations_exact, C14_internal_link_shown (with C01's symmetry), C14_orientation, C14_resolve_nearest, C14_empty over the structure model; "
+            "the real text is parsed back into declaration and relation records (titles tokenised) and compared with the model for 4 option tables incl. a configured subclass and an attribute-based title; "
+            "an independent oracle recomputes declarations and the relation multiset from the real objects.",
+            "The text layer (skinparams, note, attribute lines, joining) is outside the model; relation order is unspecified (Python set) and compared as a multiset.", "DESIGN.md 3/C14"),
+    "C15": ("Lean 4 proof: node list, soundness of every edge, one-to-one arrowed edges vs directed links, completeness incl. self-loops, over a model of pyvis' add_node/add_edge; correspondence on get_edges()/nodes",
+            "Theorems C15_nodes, C15_edges_sound (every edge is the drawing of a link attached to member src, oriented v1->v2, arrowed iff directed; indices are member positions, so nothing for outsiders), "
+            "C15_arrowed_count, C15_complete. pyvis' behaviour (no second edge for an undirected add when the pair is joined; `directed` read at add time) is modelled from its source and validated by the "
+            "correspondence on every call; an oracle checks the statement on the real network and that no vertex attribute set changes.",
+            "pyvis itself is in the trusted base.", "DESIGN.md 3/C15"),
+    "C16": ("Lean 4 proof: exact string of basic_render (lines, order, stable sort, isolated vertex, propagation); exact-string correspondence",
+            "Theorems C16_lines, C16_lines_sorted, C16_sortBy_spec (stable sort: permutation ordered by the key), C16_isolated, C16_empty, C16_propagates. The rendered string is compared character by "
+            "character with the model (token renderings, repr with addresses substituted), with and without rfunc/sort; the oracle recomputes every line from neighbors().",
+            "sorted() stability of CPython is trusted.", "DESIGN.md 3/C16"),
+    "C17": ("Lean 4 proof: state machine of the semi-singleton maps: live key returns same instance without __init__, new key new instance of the called class, reports exact, isolation between classes sharing a metaclass; exhaustive depth-2/3 + random correspondence",
+            "Theorems C17_wf_all_histories, C17_live_key_returns_same_no_init, C17_new_key_new_instance, C17_returns_called_class, C17_reports_exact, C17_drop, C17_isolation, C17_clear for an arbitrary "
+            "configuration (which classes share a metaclass object, arbitrary key functions). Correspondence: fresh classes per history (own metaclass, shared metaclass object, subclasses, custom hash "
+            "function), argument pool with equal hashes (-1/-2), 1/1.0/True, keyword permutations; the instance maps are read back after every call; the oracle keeps the statement's own (class, key) book.",
+            "Keys are compared with ==; unhashable arguments (TypeError) are outside the model.", "DESIGN.md 3/C17"),
+    "C18": ("Lean 4 proof: state machine of true singletons over all histories (same object between clears, __init__ once with the first arguments, per-class, clear isolated / all / absent); exhaustive depth-2/3 + random correspondence",
+            "Theorems C18_wf_all_histories, C18_same_between_clears (arbitrary intervening operations on other classes), C18_init_once_first_args, C18_per_class, C18_distinct_instances, C18_clear_isolated, "
+            "C18_clear_all, C18_clear_absent_harmless. Correspondence over three classes (one a subclass) with instance dict and __init__ log compared after every call.",
+            "", "DESIGN.md 3/C18"),
+    "C20": ("Lean 4 proof: for every admissible answer of the RNG oracle randgraph returns without raising a universe of exactly count well-formed vertices; k <= count whatever the float product; correspondence with logged real draws replayed on both sides",
+            "Theorems C20_k_le_count (whatever randint returned and however r*connectivity rounds, the sample size never exceeds the population), C20_k_pos, C20_builds (exactly count members carrying i=0..count-1, "
+            "every new link of the requested class with both ends members, pre-existing graph untouched, ensurelink => every vertex is v1 of a link), C20_reproducible. Correspondence: counts 1..40 x 5 classes x "
+            "{default, 0, .3, .5, .7, 1} x both flags: the draws of a real seeded run are logged and replayed on the real code and the model (k recomputed with Lean's IEEE Float); same seed twice gives the same result.",
+            "random.randint / random.sample range and distinctness are the trusted oracle; Float agreement between CPython and Lean is checked by the correspondence, not needed by the theorems.", "DESIGN.md 3/C20"),
 }
 
 READY = os.environ.get("EG_READY", "").split(",") if os.environ.get("EG_READY") else None
